@@ -599,7 +599,7 @@ def main(argv):
         inp = b"a\n"
         names = ["s%d" % i for i in range(4)]
         env = dict(os.environ, MALLOC_PERTURB_="165")
-        st, so, se = run_tool([repo_bin("shard"), "-c", comp] + names, stdin=inp, timeout=30, cwd=sd, env=env)
+        st, so, se = codeclog.run_tool_limited([repo_bin("shard"), "-c", comp] + names, stdin=inp, timeout=30, cwd=sd, env=env)
         c.count(("shard", comp), bucket="tool/shard-c-%s-empty-shards" % comp)
         rep = {"op": "shard", "how": "printf 'a\\n' | MALLOC_PERTURB_=165 shard -c %s s0 s1 s2 s3" % comp, "status": st}
         if st != 0:
@@ -634,7 +634,7 @@ def main(argv):
     for name, stream in [("plain", text)] + [(k, v) for k, v in variants.items() if v is not None]:
         shutil.rmtree(sd, ignore_errors=True)
         os.makedirs(sd)
-        st, so, se = run_tool([repo_bin("shard"), "-f", "1", "a", "b", "c"], stdin=stream, timeout=60, cwd=sd)
+        st, so, se = codeclog.run_tool_limited([repo_bin("shard"), "-f", "1", "a", "b", "c"], stdin=stream, timeout=60, cwd=sd)
         outs = [open(os.path.join(sd, n), "rb").read() if os.path.exists(os.path.join(sd, n)) else None for n in ("a", "b", "c")]
         c.count(("shard-input", name), bucket="tool/shard-reads-%s-stdin" % name.split(" ")[0])
         rep = {"op": "shard", "how": "<%s input, %d bytes> | shard -f 1 a b c" % (name, len(stream)), "status": st}
@@ -654,7 +654,7 @@ def main(argv):
         cut = variants[name][:len(variants[name]) * 2 // 3]
         shutil.rmtree(sd, ignore_errors=True)
         os.makedirs(sd)
-        st, so, se = run_tool([repo_bin("shard"), "a", "b"], stdin=cut, timeout=30, cwd=sd)
+        st, so, se = codeclog.run_tool_limited([repo_bin("shard"), "a", "b"], stdin=cut, timeout=30, cwd=sd)
         c.count(("shard-trunc", name), bucket="tool/shard-reads-truncated-%s-stdin" % name)
         if st == 0 or st == "timeout":
             c.violation("tool-truncated-input-%s: shard on a truncated %s stream ends with status %s" % ("hangs" if st == "timeout" else "accepted", name, st),
